@@ -5,6 +5,9 @@
 (2) the candle store: random sequences of add_candle (new / repeated / older) and add_multiple_1m_candles on a real store,
     shadowed by a {timestamp: row} model.
 (3) research.backtest: spacing of the leading candles.
+(4) sessions with trading and data routes of mixed timeframes: the series the store holds for every timeframe, observed at
+    every strategy bar and at the end (strictly increasing, gapless from the first input candle, complete, equal to the
+    aggregation of the harness's own one-minute candles; the last row may be the candle still forming).
 """
 import itertools
 import random
@@ -17,12 +20,14 @@ PROP = 'C20'
 RULE = ('(1) all non-empty subsets of present minutes for interval lengths 1..10 plus random patterns (start/middle/end/all-but-one '
         'missing) up to 1500 minutes; (2) add sequences of length <= 60 over 1m and a higher timeframe with new, repeated, older-known '
         'and older-unknown timestamps and bulk adds (new, overlapping the tail, exact repeats); (3) leading spacing in {59999, 60000, '
-        '60001, 120000, 0}. distinct = distinct (part, pattern / operation-kind sequence); non-trivial = >= 1 missing minute (1), '
+        '60001, 120000, 0}; (4) sessions with 1-2 trading routes and 1-3 data routes over {1m,3m,5m,15m,30m,45m,1h} x 2 symbols, normal '
+        'and fast simulator, warm-up 0 / 180 minutes, store series read at every `before` hook and at terminate. distinct = distinct (part, pattern / operation-kind sequence); non-trivial = >= 1 missing minute (1), '
         '>= 1 non-append operation (2).')
 ASSUMPTIONS = ['an exception is acceptable for a candle / batch whose timestamps are older than the stored ones and unknown, as long '
                'as the store is left unchanged', 'bulk adds that overlap the stored tail are no longer than the stored series']
 MIN_OBS = {'fill_cases': 2000, 'fill_missing_minutes': 5000, 'store_ops': 3000, 'store_replacements': 300,
-           'store_bulk_overlaps': 100, 'spacing_cases': 6}
+           'store_bulk_overlaps': 100, 'spacing_cases': 6, 'route_sessions': 30, 'fast_route_sessions': 10,
+           'series_observations': 3000, 'finer_data_route_observations': 200, 'stored_candles_compared': 5000}
 EXHAUSTIVE_NOTE = 'part (1): every non-empty subset of present minutes for every interval length 1..10 (2036 patterns) in both tiers'
 
 
@@ -312,6 +317,115 @@ def _part3(job):
     return {'viol': _dedup(viol), 'cnt': cnt, 'sigs': ['spacing', 'spacing_multi']}
 
 
+def _part4(job):
+    """Sessions with trading and data routes of mixed timeframes (normal and fast simulator): the series the store holds for
+    every (symbol, timeframe) is observed from the strategy hooks and at the end, against the harness's own 1m input."""
+    from .. import session
+    from jesse.store import store
+    rng = random.Random(job['seed'])
+    viol, cnt, sigs = [], {}, []
+    for _ in range(job['n']):
+        tfs = ['1m', '3m', '5m', '15m', '30m', '45m', '1h']
+        syms = ['BTC-USDT', 'ETH-USDT']
+        pairs = [(s_, t_) for s_ in syms for t_ in tfs]
+        rng.shuffle(pairs)
+        n_tr = rng.choice([1, 1, 2])
+        trading, used = [], set()
+        for s_, t_ in pairs:
+            if s_ not in used and len(trading) < n_tr:
+                trading.append((s_, t_))
+                used.add(s_)
+        data = [p_ for p_ in pairs if p_ not in trading][:rng.choice([1, 2, 3])]
+        w = rng.choice([0, 180])
+        n = rng.choice([360, 540]) + w
+        fast = rng.random() < 0.6
+        spec = {'config': {'starting_balance': 10000, 'fee': 0.001, 'type': 'futures', 'futures_leverage': 2,
+                           'futures_leverage_mode': 'cross'},
+                'routes': [{'symbol': s_, 'timeframe': t_,
+                            'script': {'seed': rng.randrange(1 << 30), 'p_enter': 0.3, 'observe': 'light', 'sl': 0.004, 'tp': 0.004,
+                                       'entry': rng.choice(['market', 'limit', 'stop'])}} for s_, t_ in trading],
+                'data_routes': [{'symbol': s_, 'timeframe': t_} for s_, t_ in data], 'warmup': w, 'fast': fast,
+                'candles': {s_: gen.random_spec(rng, n, 'walk') for s_ in syms if any(s_ == x for x, _ in trading + data)}}
+        allc = session.build_candles(spec)
+        t0 = {s_: int(a[0, 0]) for s_, a in allc.items()}
+        considered = sorted({t_ for _, t_ in trading + data} | {'1m'})
+        seen_keys = set()
+        state = {'obs': 0, 'fills': 0}
+
+        def bad(key, msg, **wit):
+            if key not in seen_keys:
+                seen_keys.add(key)
+                wit.update(trading=trading, data=data, fast=fast, warmup=w, n=n)
+                viol.append({'key': key, 'msg': msg + f' (trading {trading}, data routes {data}, fast={fast}, warm-up {w})',
+                             'witness': wit})
+
+        def look(now, full):
+            for s_ in allc:
+                src = allc[s_]
+                for t_ in considered:
+                    m = gen.TF_MIN[t_]
+                    try:
+                        a = np.array(store.candles.get_candles(session.EXCHANGE, s_, t_), dtype=float)
+                    except Exception as ex:
+                        bad(f'store_series_unreadable:{type(ex).__name__}', f'{s_} {t_}: {ex!r}')
+                        continue
+                    cnt['series_observations'] = cnt.get('series_observations', 0) + 1
+                    if t_ != '1m' and (s_, t_) in data and m < min(gen.TF_MIN[x] for _, x in trading):
+                        cnt['finer_data_route_observations'] = cnt.get('finer_data_route_observations', 0) + 1
+                    # (the view includes the candle that is still forming: the minutes of it seen so far)
+                    mins = int((now - t0[s_]) // 60000)
+                    exp_n = -(-mins // m)
+                    if a.ndim != 2 or len(a) == 0:
+                        if exp_n > 0:
+                            bad('store_series_empty', f'{s_} {t_}: no candles although {exp_n} have started')
+                        continue
+                    ts = a[:, 0]
+                    d = np.diff(ts)
+                    if np.any(d <= 0):
+                        i = int(np.flatnonzero(d <= 0)[0])
+                        bad('store_timestamps_not_increasing', f'{s_} {t_}: timestamps {ts[i]:.0f}, {ts[i + 1]:.0f} at rows {i}, {i + 1}')
+                        continue
+                    if np.any(d != m * 60000):
+                        i = int(np.flatnonzero(d != m * 60000)[0])
+                        bad('store_series_has_gap', f'{s_} {t_}: rows {i}, {i + 1} are {d[i] / 60000:g} minutes apart', row=i)
+                        continue
+                    if ts[0] != t0[s_]:
+                        bad('store_series_does_not_start_at_first_candle', f'{s_} {t_}: first stored candle starts '
+                                                                           f'{(ts[0] - t0[s_]) / 60000:g} minutes after the first input candle')
+                        continue
+                    if len(a) != exp_n:
+                        bad('store_series_length_differs_from_started_candles',
+                            f'{s_} {t_}: {len(a)} stored candles {mins} minutes into the data, {exp_n} have started')
+                        continue
+                    rows = range(len(a)) if full else range(max(0, len(a) - 2), len(a))
+                    for i in rows:
+                        blk = src[i * m:min((i + 1) * m, mins)]
+                        exp = [blk[0, 1], blk[-1, 2], blk[:, 3].max(), blk[:, 4].min(), blk[:, 5].sum()]
+                        got = a[i, 1:6]
+                        if not (np.array_equal(got[:4], exp[:4]) and abs(got[4] - exp[4]) <= 1e-9 * max(1.0, abs(exp[4]))):
+                            bad('store_candle_differs_from_its_minutes', f'{s_} {t_} row {i}: stored {got.tolist()}, its {m} one-minute '
+                                                                         f'candles give {exp}', row=i)
+                            break
+                        cnt['stored_candles_compared'] = cnt.get('stored_candles_compared', 0) + 1
+
+        def sub(e):
+            if e['k'] == 'hook' and e.get('hook') in ('before', 'terminate'):
+                state['obs'] += 1
+                look(int(e['t']), e['hook'] == 'terminate')
+            elif e['k'] == 'exec_ret':
+                state['fills'] += 1
+
+        out = session.run_session(spec, subs=[sub], keep_events=False, snapshots=False, candles=allc)
+        cnt['route_sessions'] = cnt.get('route_sessions', 0) + 1
+        if fast:
+            cnt['fast_route_sessions'] = cnt.get('fast_route_sessions', 0) + 1
+        cnt['fills_in_route_sessions'] = cnt.get('fills_in_route_sessions', 0) + state['fills']
+        if out['error']:
+            bad('route_session_raised:' + out['error']['type'], out['error']['msg'], tb=out['error']['tb'])
+        sigs.append(repr(('routes', tuple(sorted(t_ for _, t_ in trading)), tuple(sorted(t_ for _, t_ in data)), fast, w)))
+    return {'viol': _dedup(viol), 'cnt': cnt, 'sigs': sigs}
+
+
 def _dedup(viol):
     seen, out = set(), []
     for x in viol:
@@ -322,7 +436,7 @@ def _dedup(viol):
 
 
 def run_job(job):
-    return {1: _part1, 2: _part2, 3: _part3}[job['part']](job)
+    return {1: _part1, 2: _part2, 3: _part3, 4: _part4}[job['part']](job)
 
 
 def make_jobs(tier, seed):
@@ -333,4 +447,6 @@ def make_jobs(tier, seed):
     for i in range(24 if tier == 'quick' else 12000):
         jobs.append({'part': 2, 'seed': rng.randrange(1 << 30), 'n': 10, 'length': rng.choice([20, 40, 60])})
     jobs.append({'part': 3})
+    for i in range(16 if tier == 'quick' else 4000):
+        jobs.append({'part': 4, 'seed': rng.randrange(1 << 30), 'n': 3})
     return jobs
